@@ -36,22 +36,28 @@ Definition rhe (q : Q) : Z :=
 Definition pow2Q (e : Z) : Q :=
   if 0 <=? e then inject_Z (2 ^ e) else 1 # Z.to_pos (2 ^ (- e)).
 
+(** floor of log2 of a/d, for a, d > 0 *)
+Definition flog2 (a d : Z) : Z :=
+  let k0 := Z.log2 a - Z.log2 d in
+  let ge := if 0 <=? k0 then d * 2 ^ k0 <=? a else d <=? a * 2 ^ (- k0) in
+  if ge then k0 else k0 - 1.
+
+(** (a/d) / 2^e, for a, d > 0 *)
+Definition scaledQ (a d e : Z) : Q :=
+  if 0 <=? e then a # Z.to_pos (d * 2 ^ e) else (a * 2 ^ (- e)) # Z.to_pos d.
+
+(** rounding of a/d > 0 to a 53-bit significand: m * 2^e with 2^52 <= m <= 2^53 *)
+Definition fl_pos (a d : Z) : Q :=
+  let e := flog2 a d - 52 in
+  (inject_Z (rhe (scaledQ a d e)) * pow2Q e)%Q.
+
 (** binary64 rounding of an exact rational: nearest value with a 53-bit significand,
     ties to even; the exponent range is not bounded (no overflow, no subnormals). *)
 Definition fl64 (q : Q) : Q :=
   match Qnum q with
   | Z0 => 0%Q
-  | _ =>
-    let a := Z.abs (Qnum q) in
-    let d := Zpos (Qden q) in
-    let k0 := Z.log2 a - Z.log2 d in
-    let ge := if 0 <=? k0 then d * 2 ^ k0 <=? a else d <=? a * 2 ^ (- k0) in
-    let k := if ge then k0 else k0 - 1 in      (* floor of log2 of a/d *)
-    let e := k - 52 in
-    let m := if 0 <=? e then rhe (a # Z.to_pos (d * 2 ^ e))
-             else rhe ((a * 2 ^ (- e)) # Qden q) in
-    let v := (inject_Z m * pow2Q e)%Q in
-    if 0 <? Qnum q then v else (- v)%Q
+  | Zpos a => fl_pos (Zpos a) (Zpos (Qden q))
+  | Zneg a => (- fl_pos (Zpos a) (Zpos (Qden q)))%Q
   end.
 
 (* ------------------------------------------------------------------ tables *)
